@@ -5,18 +5,10 @@
 use libfuzzer_sys::fuzz_target;
 use std::sync::{Arc, OnceLock};
 
-struct Env {
-    rt: tokio::runtime::Runtime,
-    svc: cardinalsin::api::ingest::flight_ingest::FlightIngestService,
-}
-static ENV: OnceLock<Env> = OnceLock::new();
+static RT: OnceLock<tokio::runtime::Runtime> = OnceLock::new();
 
-fn env() -> &'static Env {
-    ENV.get_or_init(|| {
-        let rt = tokio::runtime::Builder::new_current_thread().enable_all().build().unwrap();
-        let ing = rt.block_on(async { csverif::props::c17::receiver().await.ingester });
-        Env { rt, svc: cardinalsin::api::ingest::flight_ingest::FlightIngestService::new(Arc::clone(&ing)) }
-    })
+fn rt() -> &'static tokio::runtime::Runtime {
+    RT.get_or_init(|| tokio::runtime::Builder::new_current_thread().enable_all().build().unwrap())
 }
 
 fuzz_target!(|data: &[u8]| {
@@ -33,8 +25,13 @@ fuzz_target!(|data: &[u8]| {
             p = (p + bl).min(data.len());
             frames.push(arrow_flight::FlightData { flight_descriptor: None, data_header: bytes::Bytes::copy_from_slice(h), app_metadata: bytes::Bytes::new(), data_body: bytes::Bytes::copy_from_slice(b) });
         }
-        let e = env();
-        let _ = e.rt.block_on(e.svc.process_stream(frames.into_iter()));
+        // a fresh receiver per input: accepted batches are flushed into its in-memory store,
+        // and state carried from one input to the next would make failures unreproducible
+        let _ = rt().block_on(async {
+            let ing = csverif::props::c17::receiver().await.ingester;
+            let svc = cardinalsin::api::ingest::flight_ingest::FlightIngestService::new(Arc::clone(&ing));
+            svc.process_stream(frames.into_iter()).await
+        });
     }));
 });
 
